@@ -223,9 +223,9 @@ def _check_histories(ctx, b, rep, histories, base, iso_results):
             op = h[m["after_call"]]
             cls = f"{m['what']}:{op[0]}:{_spec_name(op[1]) if op[0] in BUILD_KINDS else 'reuse'}"
             if m["what"] == "rng":
-                origin = op if op[0] in BUILD_KINDS else (h[op[1]] if op[0] in ("reuse", "mm_of") else h[op[1][0]])
+                origins = [op] if op[0] in BUILD_KINDS else ([h[op[1]]] if op[0] in ("reuse", "mm_of") else [h[k] for k in op[1]])
                 data = op[2]
-                if data == "d2" and "`my col`" in json.dumps(origin[1]):
+                if data == "d2" and any("`my col`" in json.dumps(o[1]) for o in origins):
                     cls += ":data-has-a-column-named-like-the-alias"
             rep.fail(f"C18.inputs.{m['what']}-unchanged", cls,
                      {"history": _describe(h), "after_call": m["after_call"], "code": repro_mutation(h)},
